@@ -639,6 +639,7 @@ func GenLoad(rt *rapid.T) Case {
 	if big {
 		c.Reps = 1
 	}
+	c.Preset = hx.Chance(rt, 20, "preset")
 	if !big && hx.Chance(rt, 12, "iofault") {
 		// one injected I/O failure (a listing or a read) somewhere in the load
 		c.FailAt = 1 + hx.Uniform(rt, 2*nfiles+4, "failat")
